@@ -368,7 +368,9 @@ class BaseNode:
             self.__post_assign_children(new_children)
         except Exception as exc_info:
             # Reassign new children to their original parent
-            for child, idx_parent in current_new_children.items():
+            for child, idx_parent in sorted(
+                current_new_children.items(), key=lambda item: item[1][0]
+            ):
                 child_idx, parent = idx_parent
                 child.__parent = parent
                 parent.__children.insert(child_idx, child)
